@@ -43,7 +43,10 @@ class _FixedDateTimeZone(DateTimeZone):
 
         if offset == Offset.zero:
             return self._UTC_ID
-        return self._UTC_ID + str(offset)
+        from ..text import OffsetPattern
+
+        # The invariant pattern, not str(offset): the ID must not depend on the current culture.
+        return self._UTC_ID + OffsetPattern.general_invariant.format(offset)
 
     @classmethod
     def _get_fixed_zone_or_null(cls, id_: str) -> DateTimeZone | None:
